@@ -701,8 +701,13 @@ func runC19(e *Env, r *core.Run) {
 		// control: the untouched artifact must be accepted.  If it is not, something
 		// other than C19 is broken on this tree; that is not this check's business.
 		var res c19Res
-		pan, _ := Guard(func() { res = tg.try(c, prev, a) })
-		if pan || !res.ok {
+		pan, pmsg := Guard(func() { res = tg.try(c, prev, a) })
+		if pan {
+			// a panic on the untouched artifact is a panic on externally supplied bytes like any other
+			r.Fail("undocumented-panic", tg.name+"/none", "%s panicked on a valid, untouched artifact %x: %s", tg.name, a, pmsg)
+			return
+		}
+		if !res.ok {
 			r.Count(c19ctlRejected)
 			r.Ev("control rejected; run skipped")
 			return
